@@ -145,12 +145,22 @@ pub fn run(ctx: &Ctx, rec: &mut Rec) {
     par(rec, |w, n, rec| {
         let mut rng = rng_for(ctx.seed, P, w, 2);
         let lens = [0usize, 1, 2, 3, 5, 17];
+        // long iterators: lengths around powers of two (chunked / pairwise / windowed summation
+        // strategies switch at such sizes), odd and even, a few per run
+        let long_lens = [31usize, 32, 33, 63, 64, 65, 127, 128, 129, 255, 256, 257, 301, 512, 513, 1000, 1023, 1025];
         let reps = ctx.scale(6, 60);
-        for rep in 0..reps {
+        for rep in 0..reps.max(n) {
             if rep % n != w {
                 continue;
             }
-            for len in lens {
+            let mut these: Vec<usize> = if rep < reps { lens.to_vec() } else { vec![] };
+            // every long length is covered once per run (spread over the workers), thorough: 4x
+            for (li, l) in long_lens.iter().enumerate() {
+                if li % n == w && rep < n * ctx.scale(1, 4) {
+                    these.push(*l);
+                }
+            }
+            for len in these {
                 let items: Vec<SE> = (0..len).map(|_| zoo[rand_range(&mut rng, zoo.len())].clone()).collect();
                 let mut want = ctx.c.identity();
                 for it in &items {
